@@ -457,3 +457,94 @@ func MergeLists(opts []SegSpec, k int, yield func(idx int64, segs []SegSpec) boo
 		}
 	}
 }
+
+// ---- STORED-S / DV-S ----
+
+const NStoredCfg = 8
+
+func storedDoc(cfg int, i int) Doc {
+	big := make([]byte, 300)
+	for j := range big {
+		big[j] = byte('A' + (j+i)%23)
+	}
+	id := fmt.Sprintf("d%d", i)
+	idf := fld("_id", Term{T: id, Freq: 1}) // _id indexed but not stored unless the config says so
+	switch cfg {
+	case 0: // nothing stored at all
+		return Doc{idf, fld("a", TermKind("x", KF1, ""))}
+	case 1: // empty value
+		return Doc{idf, stored(fld("a", TermKind("x", KF1, "")), "")}
+	case 2: // one short value
+		return Doc{idf, stored(fld("a", TermKind("x", KF1, "")), fmt.Sprintf("v%d", i))}
+	case 3: // repeated stored field: two values, input order matters
+		return Doc{idf, stored(fld("a", TermKind("x", KF1, "")), "second-in-sort-but-first-in-input"), stored(fld("a", TermKind("y", KF1, "")), "another")}
+	case 4: // 300-byte value
+		return Doc{idf, stored(fld("a"), string(big))}
+	case 5: // two stored fields declared in reverse of field-list order, plus stored _id
+		return Doc{stored(fld("z", TermKind("x", KF1, "")), "zz"), stored(fld("a", TermKind("x", KF1, "")), "aa"), IDField("d", i)}
+	case 6: // stored-only field without terms, empty document otherwise
+		return Doc{Field{N: "z", St: true, Val: []byte{0, 0xff, 0}}}
+	case 7: // no fields at all
+		return Doc{}
+	}
+	panic("stored cfg")
+}
+
+// StoredS enumerates STORED-S: 0..maxDocs docs x 8 stored configurations.
+func StoredS(maxDocs int, yield func(idx int64, batch []Doc, cfgs []int) bool) {
+	var idx int64
+	for n := 0; n <= maxDocs; n++ {
+		ok := Pow(NStoredCfg, n, func(v []int) bool {
+			batch := make([]Doc, n)
+			for i, k := range v {
+				batch[i] = storedDoc(k, i)
+			}
+			r := yield(idx, batch, v)
+			idx++
+			return r
+		})
+		if !ok {
+			return
+		}
+	}
+}
+
+// DVS enumerates DV-S: 0..maxDocs docs; per doc: subset of {x,y,""} in doc-value field b (8),
+// d in {absent, x} (2), and if withA also non-doc-value field a in {absent, y} (2).
+func DVS(maxDocs int, withA bool, yield func(idx int64, batch []Doc) bool) {
+	per := 16
+	if withA {
+		per = 32
+	}
+	var idx int64
+	for n := 0; n <= maxDocs; n++ {
+		ok := Pow(per, n, func(v []int) bool {
+			batch := make([]Doc, n)
+			for i, k := range v {
+				var doc Doc
+				var ts []Term
+				for bi, t := range []string{"y", "x", ""} { // deliberately unsorted input order
+					if k&(1<<uint(bi)) != 0 {
+						ts = append(ts, Term{T: t, Freq: 1})
+					}
+				}
+				if len(ts) > 0 {
+					doc = append(doc, fld("b", ts...))
+				}
+				if k&8 != 0 {
+					doc = append(doc, fld("d", Term{T: "x", Freq: 2}))
+				}
+				if k&16 != 0 {
+					doc = append(doc, fld("a", Term{T: "y", Freq: 1}))
+				}
+				batch[i] = doc
+			}
+			r := yield(idx, batch)
+			idx++
+			return r
+		})
+		if !ok {
+			return
+		}
+	}
+}
